@@ -1396,7 +1396,7 @@ def check_c08(pid, tier, build, props):
             problems.append("front-end (expressions) correspondence harness: %r" % (meta,))
         elif meta and "skipped" in meta:
             fx["skipped"][meta["skipped"]] = fx["skipped"].get(meta["skipped"], 0) + 1
-        elif (meta and "model_mismatch" in meta) or r is None or r[:3] != [1, 1, 1]:
+        elif (meta and "model_mismatch" in meta) or r is None or len(r) != 5 or r[:3] != [1, 1, 1] or r[4] != 1:
             fx["mismatch"] += 1
             if fx["mismatch"] <= 2:
                 violations.append({"source": item, "witness": None,
@@ -1451,7 +1451,9 @@ def check_c08(pid, tier, build, props):
                        "the known findings K2 and K-expr; and where the transformer keeps the order of evaluation the positive "
                        "statement IS proved for every program (C08_graph_means_source_with_and_or: flat and/or chains of "
                        "any length in tests and values, and/or as leading operands; fragment predicate good_stmts, "
-                       "evaluated per program in the run: in_theorem_fragment). NOT proved: for-desugaring vs Python's for, divergence - "
+                       "evaluated per program in the run: in_theorem_fragment), for the pruned graph as well "
+                       "(C08_pruned_graph_means_source_with_and_or; the tie compares the pruned graph and its entry "
+                       "too). NOT proved: for-desugaring vs Python's for, divergence - "
                        "decided by path-exhaustive differential execution against CPython (exploration). Known findings (test suite pins the behaviour): nested and/or "
                        "operands are hoisted eagerly; a for target is initialised to None.",
     }
